@@ -76,6 +76,8 @@ def cases(ctx):
             force = rng.choice(['en', 'fr', 'zz', 'en-US'])
             if src['kind'] == 'api' and rng.random() < 0.7:
                 force = rng.choice([l['lang'] for l in src['set']['langs']])
+                if rng.random() < 0.25:
+                    force = rng.choice([force.upper(), force.lower(), force.swapcase()])
         yield {'writer': writer, 'opts': gen_opts(rng, writer), 'force': force, 'src': src}
 
 
